@@ -11,6 +11,7 @@ def main():
         print(__doc__); return 2
     if a[0] == "setup":
         try:
+            print(vcore.regenerate_gen())
             vcore.build_coq(clean=True)
             vcore.build_model()
             vcore.build_harness()
